@@ -91,6 +91,19 @@ E01(self->last_byte_unset_bits < 8 && BTW_CLEAN(self))
 E02(self->data.size <= self->data.cap)
 __CPROVER_assigns(self->last_byte_unset_bits, self->data.size, __CPROVER_object_whole(self->data.data));
 
+/* truncate(n): cannot extend (logic_error); otherwise the bit string becomes its first n bits: size' == n, every kept bit
+ * (ghost g_bit < n) keeps its value, the representation invariant (unset low bits of the last byte are zero) holds again */
+void BitWriter_truncate(BitWriter* self, size_t size)
+BTW_REQ(self) __CPROVER_requires(BTW_CLEAN(self))
+__CPROVER_requires(g_oldbits == BTW_BITS(self) && (g_bit < g_oldbits ==> g_bitval == BITAT(self->data.data, g_bit)))
+E01(size <= g_oldbits ? verif_exc == 0 : verif_exc == EXC_logic_error)
+E01(verif_exc == 0 ==> BTW_BITS(self) == size)
+E01((verif_exc == 0 && g_bit < size) ==> BITAT(self->data.data, g_bit) == g_bitval)
+E01(verif_exc == 0 ==> (self->last_byte_unset_bits < 8 && BTW_CLEAN(self)))
+E01(verif_exc != 0 ==> BTW_BITS(self) == g_oldbits)
+E02(self->data.size <= self->data.cap)
+__CPROVER_assigns(verif_exc, self->last_byte_unset_bits, self->data.size, __CPROVER_object_whole(self->data.data));
+
 /* BitReader: no bounds check by design (C02's anchors do not list it): in-range is a precondition; sub_bits/subx_bits
  * (C02) are what establish it for sub-readers. */
 #define BR_OK(r) (__CPROVER_is_fresh(r, sizeof(BitReader)) && (r)->length <= RD_MAX && __CPROVER_is_fresh((r)->data, ((r)->length + 7) >> 3) && verif_exc == 0 && \
